@@ -4,7 +4,7 @@
    knows nothing of bitmasks, sentinels, sorted slices or merge loops. *)
 From Coq Require Import String.
 From OCI Require Export Base.Outcome Model.Scope.
-From OCI Require Import Proofs.Scope.
+From OCI Require Import Proofs.Scope Proofs.ScopeAlg Proofs.ScopeOps Proofs.ScopeEval Proofs.ScopeText Proofs.ScopeLaws.
 
 (* everything observed on one Scope value *)
 Record sobs := {
@@ -208,6 +208,238 @@ Definition nontrivial (c : case) : bool :=
   | Some u, None => negb (match u with [] => true | _ => false end)
   | None, None => false
   end.
+
+(* ---------- corr_sound: the model's prediction satisfies the specification ---------- *)
+
+Lemma memb_In r l : memb r l = true <-> In r l.
+Proof.
+  unfold memb. rewrite existsb_exists. split.
+  - intros (x & Hx & E). apply rs_eqb_eq in E. now subst.
+  - intros H. exists r. split; auto. apply rs_eqb_refl.
+Qed.
+
+Lemma subsetb_incl l1 l2 : subsetb l1 l2 = true <-> incl l1 l2.
+Proof.
+  unfold subsetb. rewrite forallb_forall. split; intros H x Hx; [apply memb_In | apply memb_In]; auto.
+Qed.
+
+Lemma distinct_In v l : In v (distinct l) <-> In v l.
+Proof.
+  induction l as [|r l IH]; cbn; [tauto|]. destruct (memb r l) eqn:E.
+  - rewrite IH. apply memb_In in E. split; auto. intros [<-|H]; auto.
+  - cbn. rewrite IH. tauto.
+Qed.
+
+Lemma distinct_NoDup l : NoDup (distinct l).
+Proof.
+  induction l as [|r l IH]; cbn; [constructor|]. destruct (memb r l) eqn:E; auto.
+  constructor; auto. rewrite distinct_In. intros H. apply memb_In in H. congruence.
+Qed.
+
+Lemma length_same_set (l1 l2 : list rscope) :
+  NoDup l1 -> NoDup l2 -> (forall v, In v l1 <-> In v l2) -> List.length l1 = List.length l2.
+Proof.
+  intros N1 N2 H. apply Nat.le_antisymm; apply NoDup_incl_length; auto; intros v; apply H.
+Qed.
+
+Lemma ascending_sorted l : StronglySorted rs_lt l -> ascending l = true.
+Proof.
+  induction 1 as [|a l Hs IH Hf]; [reflexivity|]. destruct l as [|b l]; [reflexivity|].
+  change (ascending (a :: b :: l)) with (match rs_cmp a b with Lt => ascending (b :: l) | _ => false end).
+  inversion Hf as [|? ? Hab _]; subst. unfold rs_lt in Hab. now rewrite Hab.
+Qed.
+
+Lemma bool_eq_iff (a b : bool) : (a = true <-> b = true) -> a = b.
+Proof. destruct a, b; intros [H1 H2]; auto; symmetry; auto. Qed.
+
+Lemma opt_eqb_eq {A} (eqb : A -> A -> bool) :
+  (forall a b, eqb a b = true <-> a = b) -> forall a b, opt_eqb eqb a b = true <-> a = b.
+Proof.
+  intros H [a|] [b|]; cbn; split; intros E; try discriminate; auto.
+  - f_equal. now apply H.
+  - injection E as ->. now apply H.
+Qed.
+
+Lemma rs_list_eqb_eq l1 l2 : rs_list_eqb l1 l2 = true <-> l1 = l2.
+Proof. apply (list_eqb_eq rs_eqb rs_eqb_eq). Qed.
+
+(* what an expression denotes is what its value denotes *)
+Lemma den_eval e :
+  match den e with
+  | None => unlimited (eval e) = true
+  | Some l => unlimited (eval e) = false /\ forall v, In v (abs (eval e)) <-> In v l
+  end.
+Proof.
+  induction e as [l|t| |a IHa b IHb|a IHa]; cbn [den eval].
+  - split; [apply unlimited_new | intros v; apply abs_new].
+  - split; [apply unlimited_parse | intros v; apply abs_parse].
+  - reflexivity.
+  - destruct (union_spec (eval a) (eval b) (wf_eval a) (wf_eval b)) as (_ & Hu & Hi).
+    destruct (den a) as [u|], (den b) as [v|].
+    + destruct IHa as [Ua Ia], IHb as [Ub Ib]. split; [now rewrite Hu, Ua, Ub|].
+      intros w. rewrite Hi, Ia, Ib, in_app_iff by auto. tauto.
+    + destruct IHa as [Ua _]. now rewrite Hu, IHb, orb_true_r.
+    + now rewrite Hu, IHa.
+    + now rewrite Hu, IHa.
+  - destruct (den a) as [u|].
+    + destruct IHa as [Ua Ia]. split; auto.
+    + exact IHa.
+Qed.
+
+Lemma contains_den a b : Contains (eval a) (eval b) = containsb (den a) (den b).
+Proof.
+  apply bool_eq_iff. rewrite contains_spec by apply wf_eval.
+  pose proof (den_eval a) as Ha. pose proof (den_eval b) as Hb.
+  destruct (den a) as [u|], (den b) as [v|]; cbn [containsb].
+  - destruct Ha as [Ua Ia], Hb as [Ub Ib]. rewrite subsetb_incl. split.
+    + intros [H|[_ H]]; [congruence|]. intros w Hw. apply Ia, H, Ib, Hw.
+    + intros H. right. split; auto. intros w Hw. apply Ia, H, Ib, Hw.
+  - destruct Ha as [Ua _]. split; [intros [H|[H _]]; congruence | discriminate].
+  - split; auto.
+  - split; auto.
+Qed.
+
+Lemma equal_den a b : Equal (eval a) (eval b) = equalb (den a) (den b).
+Proof.
+  apply bool_eq_iff. rewrite equal_spec_in by apply wf_eval.
+  pose proof (den_eval a) as Ha. pose proof (den_eval b) as Hb.
+  destruct (den a) as [u|], (den b) as [v|]; cbn [equalb].
+  - destruct Ha as [Ua Ia], Hb as [Ub Ib]. rewrite andb_true_iff, !subsetb_incl. split.
+    + intros [_ H]. split; intros w Hw; [apply Ib, H, Ia, Hw | apply Ia, H, Ib, Hw].
+    + intros [H1 H2]. split; [congruence|]. intros w. rewrite Ia, Ib. split; auto.
+  - destruct Ha as [Ua _]. split; [intros [H _]; congruence | discriminate].
+  - destruct Hb as [Ub _]. split; [intros [H _]; congruence | discriminate].
+  - split; auto. intros _. split; [congruence|].
+    rewrite (wf_unl _ (wf_eval a) Ha), (wf_unl _ (wf_eval b) Hb). tauto.
+Qed.
+
+Lemma equalb_sym Da Db : equalb Da Db = equalb Db Da.
+Proof. destruct Da, Db; cbn; auto. apply andb_comm. Qed.
+
+(* the text the property fixes is the text the value carries *)
+Lemma text_eval e t :
+  text e = Some t -> original (eval e) = t /\ same_fields (eval e) (NewScope (parse_rscopes t)).
+Proof.
+  revert t. induction e as [l|t0| |a IHa b IHb|a IHa]; cbn [text eval]; intros t H; try discriminate.
+  - injection H as <-. split; [reflexivity | apply same_fields_with_original].
+  - pose proof (contains_den a b) as Hc.
+    destruct (den a) as [u|]; [|discriminate]. destruct (den b) as [v|]; [|discriminate].
+    cbn [containsb] in Hc. destruct (subsetb v u); [|discriminate].
+    rewrite (union_noop _ _ (wf_eval a) Hc). now apply IHa.
+Qed.
+
+Lemma holds_mask_spec sc (f : rscope -> bool) probes :
+  wf sc -> (forall r, f r = true <-> unlimited sc = true \/ In r (abs sc)) ->
+  holds_mask sc probes = Some (mask_of (map f probes)).
+Proof.
+  intros W Hf. induction probes as [|r rest IH]; [reflexivity|].
+  cbn [holds_mask map mask_of]. rewrite IH. destruct (holds_spec sc r W) as (b & Hb & Hi). rewrite Hb.
+  assert (b = f r) as -> by (apply bool_eq_iff; now rewrite Hi, Hf). reflexivity.
+Qed.
+
+Lemma canonical_equal sc : Equal (Canonical sc) sc && Equal sc (Canonical sc) = true.
+Proof.
+  apply andb_true_iff. split; apply Equal_same;
+    [apply same_fields_with_original | apply same_fields_sym, same_fields_with_original].
+Qed.
+
+Lemma forallb_incl {A} (p : A -> bool) l1 l2 : incl l1 l2 -> forallb p l2 = true -> forallb p l1 = true.
+Proof. rewrite !forallb_forall. auto. Qed.
+
+Lemma sobs_sound e probes stop o :
+  sobs_agrees (eval e) probes stop o = true -> spec_sobs (den e) (text e) probes stop o = true.
+Proof.
+  set (sc := eval e). assert (W : wf sc) by apply wf_eval.
+  unfold sobs_agrees. rewrite !andb_true_iff.
+  intros ((((((((((H1 & H2) & H3) & H4) & H5) & H6) & H7) & H8) & H9) & H10) & H11).
+  apply Bool.eqb_prop in H1, H2, H9, H10, H11. apply (opt_eqb_eq _ (opt_eqb_eq _ N.eqb_eq)) in H3.
+  apply rs_list_eqb_eq in H4, H5. apply beqb_eq in H6, H7. apply (opt_eqb_eq _ N.eqb_eq) in H8.
+  rewrite (iter_list sc W) in H4. rewrite (iter_stop stop sc W) in H5.
+  unfold len_obs in H3. rewrite (len_spec sc W) in H3. unfold IsUnlimited in H1.
+  pose proof (den_eval e) as Hd. fold sc in Hd. unfold spec_sobs.
+  destruct (den e) as [l|].
+  - destruct Hd as [Hu Hin]. rewrite Hu in *.
+    assert (Hincl1 : incl (abs sc) l) by (intros v; apply Hin).
+    assert (Hincl2 : incl l (abs sc)) by (intros v; apply Hin).
+    rewrite H1. cbn [negb andb].
+    (* IsEmpty *)
+    assert (E2 : Bool.eqb (o_empty o) (match l with [] => true | _ => false end) = true).
+    { rewrite H2. apply Bool.eqb_true_iff, bool_eq_iff. rewrite (isempty_spec sc W). split.
+      - intros [_ Ha]. destruct l as [|x l]; auto. exfalso. assert (In x (abs sc)) by (apply Hin; now left).
+        now rewrite Ha in H.
+      - destruct l; [|discriminate]. intros _. split; auto. destruct (abs sc) as [|x a] eqn:Ea; auto.
+        exfalso. apply (Hin x). now left. }
+    rewrite E2. cbn [andb].
+    (* Len *)
+    injection H3 as H3. rewrite H3.
+    rewrite (length_same_set (abs sc) (distinct l)); [|apply (sorted_lt_NoDup rs_cmp rs_cmp_total), abs_sorted
+                                                       |apply distinct_NoDup | intros v; now rewrite distinct_In].
+    cbn [opt_eqb]. rewrite N.eqb_refl. cbn [andb].
+    (* Iter *)
+    rewrite H4, (ascending_sorted _ (abs_sorted sc)).
+    rewrite (proj2 (subsetb_incl _ _) Hincl1), (proj2 (subsetb_incl _ _) Hincl2). cbn [andb].
+    rewrite H5. rewrite (proj2 (rs_list_eqb_eq _ _) eq_refl). cbn [andb].
+    (* Holds *)
+    rewrite (holds_mask_spec sc (fun r => memb r l) probes W) in H8.
+    2:{ intros r. rewrite memb_In, <- Hin. split; auto. intros [H|H]; [congruence | auto]. }
+    injection H8 as ->. rewrite N.eqb_refl. cbn [andb].
+    (* text *)
+    assert (Et : match text e with Some t => beqb (o_str o) t | None => true end = true).
+    { destruct (text e) as [t|] eqn:Etx; auto. destruct (text_eval e t Etx) as [Ho Hs]. fold sc in Ho, Hs.
+      rewrite H6. apply beqb_eq. destruct t as [|c t].
+      - unfold String, IsUnlimited. rewrite Hu, Ho. cbn [beqb negb orb].
+        assert (IsEmpty sc = true) as ->; auto.
+        destruct Hs as (_ & Hr & _ & Hoth). unfold IsEmpty. now rewrite Hr, Hoth, Hu.
+      - rewrite string_original; auto. rewrite Ho. discriminate. }
+    rewrite Et. cbn [andb].
+    (* round trips *)
+    assert (Hclean : forallb clean_rs l = true -> clean sc).
+    { intros Hc. unfold clean. eapply forallb_incl; eauto. }
+    assert (E10 : (if forallb clean_rs l then o_crt o else true) = true).
+    { destruct (forallb clean_rs l) eqn:Ec; auto. rewrite H10. apply print_parse; auto. }
+    assert (E9 : (if forallb clean_rs l || match text e with Some _ => true | None => false end then o_rt o else true) = true).
+    { destruct (forallb clean_rs l) eqn:Ec; cbn [orb].
+      - rewrite H9. apply reparse; auto.
+      - destruct (text e) as [t|] eqn:Etx; auto. rewrite H9. destruct (text_eval e t Etx) as [Ho Hs]. fold sc in Ho, Hs.
+        apply reparse; auto. destruct t as [|c t]; [left | right; rewrite Ho; discriminate].
+        unfold clean. replace (abs sc) with (@nil rscope); [reflexivity|]. symmetry.
+        apply (isempty_spec sc W). destruct Hs as (_ & Hr & _ & Hoth). unfold IsEmpty. now rewrite Hr, Hoth, Hu. }
+    rewrite E10, E9, H11. apply canonical_equal.
+  - rewrite Hd in *. rewrite H1. cbn [andb]. rewrite H2. unfold IsEmpty. rewrite Hd. cbn [negb].
+    rewrite !andb_false_r. cbn [negb andb]. injection H3 as H3. rewrite H3.
+    rewrite (abs_unlimited sc Hd) in H4, H5. rewrite H4, H5. cbn [firstn andb].
+    rewrite (holds_mask_spec sc (fun _ => true) probes W) in H8 by (intros r; split; auto).
+    injection H8 as ->. rewrite N.eqb_refl, H11. apply canonical_equal.
+Qed.
+
+Lemma sobs_agrees_str sc probes stop o : sobs_agrees sc probes stop o = true -> o_str o = String sc.
+Proof.
+  unfold sobs_agrees. rewrite !andb_true_iff.
+  intros ((((((((((H1 & H2) & H3) & H4) & H5) & H6) & H7) & H8) & H9) & H10) & H11). now apply beqb_eq.
+Qed.
+
+Lemma corr_sound c : model_agrees c = true -> obs_ok c = true.
+Proof.
+  intros H. unfold model_agrees in H. rewrite !andb_true_iff in H.
+  destruct H as ((((((((Hp & Ha) & Hb) & Hu) & H1) & H2) & H3) & H4) & H5). unfold obs_ok.
+  apply Bool.eqb_prop in H1, H2, H3, H4, H5.
+  change (Union (eval (c_a c)) (eval (c_b c))) with (eval (EUnion (c_a c) (c_b c))) in Hu.
+  pose proof (sobs_agrees_str _ _ _ _ Ha) as Hastr. pose proof (sobs_agrees_str _ _ _ _ Hu) as Hustr.
+  rewrite Hp, (sobs_sound _ _ _ _ Ha), (sobs_sound _ _ _ _ Hb), (sobs_sound _ _ _ _ Hu). cbn [andb].
+  rewrite H1, H2, H3, H4, H5, !contains_den, !equal_den, (equalb_sym (den (c_b c))), !Bool.eqb_reflx. cbn [andb].
+  assert (Hua : Equal (Union (eval (c_a c)) (eval (c_b c))) (eval (c_a c)) = containsb (den (c_a c)) (den (c_b c))).
+  { rewrite <- contains_den. apply bool_eq_iff. split.
+    - intros He. pose proof (wf_eval (c_a c)) as Wa. pose proof (wf_eval (c_b c)) as Wb.
+      destruct (union_spec _ _ Wa Wb) as (Wu & Uu & Iu).
+      apply equal_spec_in in He as [He1 He2]; auto. apply contains_spec; auto.
+      destruct (unlimited (eval (c_a c))) eqn:Ua; auto. right.
+      rewrite Uu in He1. cbn in He1. split; auto. intros v Hv. apply He2, Iu; auto.
+    - intros Hc. rewrite (union_noop _ _ (wf_eval _) Hc). apply Equal_same, same_fields_refl. }
+  rewrite Hua, Bool.eqb_reflx. cbn [andb].
+  destruct (containsb (den (c_a c)) (den (c_b c))) eqn:Ec; cbn [andb]; auto.
+  destruct (negb (o_unl (c_oa c))); auto. apply beqb_eq. rewrite Hustr, Hastr.
+  rewrite <- contains_den in Ec. cbn [eval]. now rewrite (union_noop _ _ (wf_eval _) Ec).
+Qed.
 
 Definition mismatches (cs : list case) : list (N * bool) :=
   bad_from 0 (fun c => if model_agrees c then None else Some (obs_ok c)) cs.
